@@ -42,6 +42,98 @@ CONTAINER_SRCS = [
 U: list = _mk(SCALAR_SRCS + CLASS_SRCS + CONTAINER_SRCS)
 U_BY_SRC = {it.src: it for it in U}
 
+# Instances of the prelude's user-defined generic classes (a separate pool: only checks that generate Gen terms use it)
+_GEN_VALS = ["1", "'a'", "1.5", "True"]
+
+
+def _gen_srcs() -> list:
+    out = []
+    for cls, views in ty.GEN_VIEWS.items():
+        for args in itertools.product(_GEN_VALS, repeat=len(views)):
+            if cls is prelude.GRevDict:
+                out.append(f"GRevDict({{{args[1]}: {args[0]}}})")
+            elif cls is prelude.GList:
+                out.append(f"GList([{args[0]}])")
+            else:
+                out.append(f"{cls.__name__}({', '.join(args)})")
+    out += ["GPair([1], None)", "GPair(['a'], 1)", "GBox([1])", "GBox(['a'])", "GBox(GBox(1))", "GBox(GBox('a'))",
+            "GRevDict()", "GList()", "GList([1, 'a'])"]
+    return out
+
+
+UG: list = _mk(_gen_srcs())
+
+# Instances of tuple subclasses (namedtuples): a separate pool, used by C03 for tuple / sequence-like targets
+UX: list = _mk(["NTup(1, 'a')", "NPair(1, 2)", "NPair(True, 2)"])
+
+
+def _eq_cross_type(a, b) -> bool:
+    try:
+        return type(a) is not type(b) and a == b and hash(a) == hash(b)
+    except Exception:  # noqa: BLE001
+        return False
+
+
+def near_miss_pairs(t: Ty, rng, limit: int = 4, depth: int = 0) -> list:
+    """(member, non-member) Item pairs for t where the non-member is the member with ONE (possibly nested) component
+    replaced by a non-member of the component's type -- preferably one that is ==-equal to the original but of another
+    type (0 / 0.0 / False, 1 / True / Num.ONE), else one of the same class, else anything."""
+    k = t.kind
+    out: list = []
+    if k in ("Cls", "Lit", "NoneT", "NewType", "TypedDict", "TypeOf"):
+        mem = members_of(t)
+        if not mem:
+            return []
+        non = non_members_of(t)
+        twins, same, rest = [], [], []
+        for n in non:
+            tw = [m for m in mem if _eq_cross_type(m.obj, n.obj)]
+            if tw:
+                twins.append((tw[0], n))
+                continue
+            sc = [m for m in mem if type(m.obj) is type(n.obj)]
+            (same if sc else rest).append(((sc or mem)[0], n))
+        out = twins[:2] + same[:1] + (rng.sample(rest, 1) if rest else [])
+    elif k == "Union":
+        for a in t.args[:4]:
+            out.extend(near_miss_pairs(a, rng, 2, depth + 1))
+    elif k in ("List", "Set", "FrozenSet", "VarTuple", "Seq", "Iter", "Coll"):
+        wrapk = {"List": "list", "Set": "set", "FrozenSet": "frozenset", "VarTuple": "tuple", "Seq": "list",
+                 "Iter": "list", "Coll": "list"}[k]
+        for m, b in near_miss_pairs(t.args[0], rng, 3, depth + 1):
+            if wrapk in ("set", "frozenset") and not (_hashable(m) and _hashable(b)):
+                continue
+            out.append((_wrap(wrapk, [m]), _wrap(wrapk, [b])))
+            out.append((_wrap(wrapk, [m, m]), _wrap(wrapk, [m, b])))  # the original next to its near-miss twin
+    elif k in ("Dict", "Map"):
+        ks = [e for e in inhabitants(t.args[0], rng, 2, depth + 1) if _hashable(e)]
+        vs = inhabitants(t.args[1], rng, 2, depth + 1)
+        if ks and vs:
+            for m, b in near_miss_pairs(t.args[1], rng, 2, depth + 1):
+                out.append((Item("{" + f"{ks[0].src}: {m.src}" + "}", {ks[0].obj: m.obj}),
+                            Item("{" + f"{ks[0].src}: {b.src}" + "}", {ks[0].obj: b.obj})))
+            for m, b in near_miss_pairs(t.args[0], rng, 2, depth + 1):
+                if _hashable(m) and _hashable(b):
+                    out.append((Item("{" + f"{m.src}: {vs[0].src}" + "}", {m.obj: vs[0].obj}),
+                                Item("{" + f"{b.src}: {vs[0].src}" + "}", {b.obj: vs[0].obj})))
+    elif k == "Tuple":
+        cols = [inhabitants(a, rng, 2, depth + 1) for a in t.args]
+        if t.args and all(cols):
+            base = [c[0] for c in cols]
+            for i, a in enumerate(t.args):
+                for m, b in near_miss_pairs(a, rng, 2, depth + 1)[:2]:
+                    out.append((_wrap("tuple", base[:i] + [m] + base[i + 1:]), _wrap("tuple", base[:i] + [b] + base[i + 1:])))
+    res, seen = [], set()
+    for m, b in out:
+        if b.src in seen:
+            continue
+        seen.add(b.src)
+        if ty.member(m.obj, t) is True and ty.member(b.obj, t) is False:
+            res.append((m, b))
+    if len(res) > limit:
+        res = res[: limit // 2] + rng.sample(res[limit // 2:], limit - limit // 2)
+    return res
+
 
 def members_of(t: Ty, pool=None) -> list:
     return [it for it in (pool or U) if ty.member(it.obj, t) is True]
